@@ -990,11 +990,11 @@ func (t *txattrwalk) handle(cs *connState) message {
 	defer ref.DecRef()
 
 	size := 0
+	var buf []byte
 	if err := ref.safelyRead(func() error {
 		if ref.isDeleted() {
 			return linux.EINVAL
 		}
-		var buf []byte
 		var err error
 		if len(t.Name) > 0 {
 			buf, err = ref.file.GetXattr(t.Name)
@@ -1016,30 +1016,28 @@ func (t *txattrwalk) handle(cs *connState) message {
 			return linux.EINVAL
 		}
 		size = len(buf)
-
-		// The new fid needs a File of its own: the File of a fid is closed
-		// when its last reference goes away, which must not close the File
-		// that t.fid keeps using.
-		_, xf, err := ref.file.Walk(nil)
-		if err != nil {
-			return err
-		}
-		newRef := &fidRef{
-			server: cs.server,
-			file:   xf,
-			pendingXattr: pendingXattr{
-				op:   xattrWalk,
-				name: t.Name,
-				size: uint64(size),
-				buf:  buf,
-			},
-			pathNode: ref.pathNode,
-		}
-		cs.InsertFID(t.newFID, newRef)
 		return nil
 	}); err != nil {
 		return newErr(err)
 	}
+
+	// The new fid is a clone of t.fid, exactly like the fid of a zero-name
+	// walk: it owns a File of its own (the File of a fid is closed when its
+	// last reference goes away, which must not close the File t.fid keeps
+	// using), it holds a reference on the parent, and it is registered in the
+	// path tree so that it is told about renames and deletions.
+	_, newRef, _, _, err := doWalk(cs, ref, nil, false)
+	if err != nil {
+		return newErr(err)
+	}
+	defer newRef.DecRef()
+	newRef.pendingXattr = pendingXattr{
+		op:   xattrWalk,
+		name: t.Name,
+		size: uint64(size),
+		buf:  buf,
+	}
+	cs.InsertFID(t.newFID, newRef)
 	return &rxattrwalk{Size: uint64(size)}
 }
 
